@@ -339,7 +339,7 @@ def write_evidence(mod, tier, seed, agg, capped, wall, nviol, harness=False):
         cov['states'] = len(agg.states)
         cov['transitions'] = len(agg.transitions)
     for k, v in (getattr(mod, 'EXTRA_COVERAGE', None) or {}).items():
-        cov[k] = v() if callable(v) else v
+        cov[k] = v(agg) if callable(v) else v
     if capped:
         cov['cap'] = capped
     if harness:
